@@ -140,6 +140,7 @@ pub struct Report {
     pub histories: u64,
     pub nontrivial: u64,
     pub samples: Vec<String>,
+    pub wall_ms: u64,
 }
 
 impl Report {
@@ -188,9 +189,10 @@ impl Report {
 
     pub fn to_json(&self) -> String {
         let mut s = format!(
-            "{{\"case\":{},\"prop\":{},\"events\":{},\"viol_count\":{},\"nonmember_count\":{},\"states\":{},\"histories\":{},\"nontrivial\":{}",
+            "{{\"case\":{},\"prop\":{},\"wall_ms\":{},\"events\":{},\"viol_count\":{},\"nonmember_count\":{},\"states\":{},\"histories\":{},\"nontrivial\":{}",
             self.case,
             jstr(&self.prop),
+            self.wall_ms,
             self.events,
             self.viol_count,
             self.nonmember_count,
